@@ -27,6 +27,11 @@ pub struct ThreadPlan {
     /// every n-th heap allocation inside a library call is a scheduling point (0 = none)
     #[serde(default)]
     pub alloc_point_every: u64,
+    /// The n-th formatter process this thread starts (1-based) cannot be started: a transient
+    /// EAGAIN. The call it belongs to legitimately returns the unformatted text and is excluded
+    /// from the comparison (like an injected crash); every later call is not.
+    #[serde(default)]
+    pub failing_spawns: Vec<u64>,
     pub entropy: u64,
     /// indices into the pool
     pub jobs: Vec<usize>,
@@ -131,6 +136,9 @@ struct C18Backend {
     sched: Arc<Sched>,
     tid: usize,
     tick_ns: u64,
+    failing_spawns: Vec<u64>,
+    spawn_count: AtomicU64,
+    formatter_fault_in_this_call: std::sync::atomic::AtomicBool,
     fmt: FmtPlan,
     children: Mutex<Vec<Arc<SimChild>>>,
 }
@@ -154,6 +162,11 @@ impl Backend for C18Backend {
         let tid = self.tid;
         let tick_ns = self.tick_ns;
         self.sched.point(self.tid, "seam:spawn");
+        let nth = self.spawn_count.fetch_add(1, Ordering::Relaxed) + 1;
+        if self.failing_spawns.contains(&nth) {
+            self.formatter_fault_in_this_call.store(true, Ordering::Relaxed);
+            return Some(Err(std::io::Error::from_raw_os_error(libc::EAGAIN)));
+        }
         Some(
             procsim::spawn(
                 &plan,
@@ -276,6 +289,9 @@ fn run_process(input: &WorkerInput) -> WorkerOutput {
                     sched: sched.clone(),
                     tid,
                     tick_ns,
+                    failing_spawns: tplan.failing_spawns.clone(),
+                    spawn_count: AtomicU64::new(0),
+                    formatter_fault_in_this_call: std::sync::atomic::AtomicBool::new(false),
                     fmt,
                     children: Mutex::new(Vec::new()),
                 });
@@ -285,6 +301,7 @@ fn run_process(input: &WorkerInput) -> WorkerOutput {
                     for (qidx, pool_idx) in tplan.jobs.iter().copied().enumerate() {
                         sched.point(tid, "job:start");
                         let job = &pool[pool_idx];
+                        backend.formatter_fault_in_this_call.store(false, Ordering::Relaxed);
                         sched.set_in_call(tid, true);
                         seams::set_alloc_points_active(true);
                         let r = std::panic::catch_unwind(std::panic::AssertUnwindSafe(|| {
@@ -293,6 +310,16 @@ fn run_process(input: &WorkerInput) -> WorkerOutput {
                         seams::set_alloc_points_active(false);
                         sched.set_in_call(tid, false);
                         let result = match r {
+                            Ok(_) if backend.formatter_fault_in_this_call.load(Ordering::Relaxed) => JobResult {
+                                tid,
+                                qidx,
+                                pool_idx,
+                                hash: 0,
+                                class: "formatter_could_not_be_started".into(),
+                                completed: false,
+                                matches: true,
+                                outcome: None,
+                            },
                             Ok(outcome) => {
                                 let hash = outcome.hash();
                                 let want = golden[pool_idx];
@@ -561,6 +588,7 @@ fn pristine_process(job_count: usize) -> ProcessPlan {
         tick_ns: 0,
         threads: vec![ThreadPlan {
             alloc_point_every: 0,
+            failing_spawns: vec![],
             entropy: 0,
             jobs: (0..job_count).collect(),
         }],
@@ -715,6 +743,11 @@ pub fn gen_plan(rng: &mut Rng) -> RunPlan {
         let threads: Vec<ThreadPlan> = (0..n_threads)
             .map(|_| ThreadPlan {
                 alloc_point_every: alloc_every,
+                failing_spawns: if rng.chance(120) {
+                    vec![rng.range(1, 3)]
+                } else {
+                    vec![]
+                },
                 entropy: rng.next_u64() | 1,
                 jobs: Vec::new(),
             })
@@ -822,6 +855,7 @@ pub struct RunStats {
     pub switches_inside_call: u64,
     pub crashes_fired: u64,
     pub stall_handoffs: u64,
+    pub formatter_spawn_faults: u64,
     pub entropy_requests: u64,
     pub realtime_reads: u64,
     pub formatter_spawns: u64,
@@ -918,6 +952,9 @@ fn execute(scratch: &Scratch, golden: &Golden, plan: &RunPlan, record: bool) -> 
             stats.calls += 1;
             if !r.completed {
                 crashed = true;
+                if r.class == "formatter_could_not_be_started" {
+                    stats.formatter_spawn_faults += 1;
+                }
                 continue;
             }
             if crashed {
@@ -1158,6 +1195,11 @@ fn minimise(scratch: &Scratch, golden: &Golden, plan: &RunPlan, class: &str) -> 
             t.alloc_point_every = 0;
         }
         attempt!(c);
+        let mut c = best.clone();
+        for t in &mut c.processes[pi].threads {
+            t.failing_spawns.clear();
+        }
+        attempt!(c);
         for ti in 0..best.processes[pi].threads.len() {
             let mut c = best.clone();
             c.processes[pi].threads[ti].entropy = 1;
@@ -1214,6 +1256,7 @@ fn add_stats(a: &mut RunStats, b: &RunStats) {
     a.switches_inside_call += b.switches_inside_call;
     a.crashes_fired += b.crashes_fired;
     a.stall_handoffs += b.stall_handoffs;
+    a.formatter_spawn_faults += b.formatter_spawn_faults;
     a.entropy_requests += b.entropy_requests;
     a.realtime_reads += b.realtime_reads;
     a.formatter_spawns += b.formatter_spawns;
@@ -1495,6 +1538,7 @@ pub fn main(tier: Tier) -> i32 {
         "policies": tally.policies,
         "fault_kinds_fired": {
             "caller_crash_mid_call": s.crashes_fired,
+            "formatter_could_not_be_started_in_an_earlier_call": s.formatter_spawn_faults,
             "fresh_hash_seeds_per_thread": s.threads,
             "perturbed_environment": s.env_perturbed,
             "clock_skew_or_jump": s.clock_skewed,
